@@ -185,6 +185,46 @@ func c04Families(c *Check) []BashCase {
 		cases = append(cases, BashCase{Key: "E/loop-cond/" + k + "/top", Prog: SingleFile(append(append(c04Prelude(), loops[k]...), final))})
 		cases = append(cases, BashCase{Key: "E/loop-cond/" + k + "/func", Prog: SingleFile(append(c04Prelude(), fn("ctx", nil, nil, loops[k]...), callS("ctx"), callS("ctx"), final))})
 	}
+	// switches whose case expressions repeat textually: each one is still evaluated (the calls differ in effect)
+	sw := map[string][]Stmt{
+		"duplicate-case-calls-tagged":  {Switch{Tag: il(3), Cases: []SwitchCase{{E: T(1), Body: []Stmt{pr(sl("first"))}}, {E: T(1), Body: []Stmt{pr(sl("second"))}}, {E: T(3), Body: []Stmt{pr(sl("third"))}}, {E: T(3), Body: []Stmt{pr(sl("fourth"))}}, {Default: true, Body: []Stmt{pr(sl("default"))}}}}},
+		"duplicate-case-calls-tagless": {Switch{Cases: []SwitchCase{{E: Bf(1, false), Body: []Stmt{pr(sl("first"))}}, {E: Bf(1, false), Body: []Stmt{pr(sl("second"))}}, {E: Bf(2, true), Body: []Stmt{pr(sl("third"))}}, {E: Bf(2, true), Body: []Stmt{pr(sl("fourth"))}}}}},
+		"duplicate-case-counter":       {def("tick", il(0)), fn("next", nil, []Type{TInt}, IncDec{"tick", true}, IncDec{"cnt", true}, ret(vr("tick"))), Switch{Tag: il(2), Cases: []SwitchCase{{E: call("next"), Body: []Stmt{pr(sl("one"))}}, {E: call("next"), Body: []Stmt{pr(sl("two"))}}, {E: call("next"), Body: []Stmt{pr(sl("three"))}}}}, pr(vr("tick"))},
+		"duplicate-if-conditions":      {If{Branches: []IfBranch{{Bf(1, false), []Stmt{pr(sl("a"))}}, {Bf(1, false), []Stmt{pr(sl("b"))}}, {Bf(1, true), []Stmt{pr(sl("c"))}}}, HasElse: true, Else: []Stmt{pr(sl("d"))}}},
+		"same-call-both-sides":         {pr(cmp("==", T(1), T(1)), bin("+", T(2), T(2)), logic("&&", Bf(3, true), Bf(3, true)))},
+	}
+	for _, k := range sortedStmtKeys(sw) {
+		cases = append(cases, BashCase{Key: "E/repeated-expressions/" + k + "/top", Prog: SingleFile(append(append(c04Prelude(), sw[k]...), final))})
+		fnBody, fnDefs := []Stmt{}, []Stmt{}
+		for _, st := range sw[k] {
+			if _, isFn := st.(FuncDecl); isFn {
+				fnDefs = append(fnDefs, st)
+			} else if d, isDef := st.(VarDecl); isDef && len(d.Names) == 1 && d.Names[0] == "tick" {
+				fnDefs = append(fnDefs, st)
+			} else {
+				fnBody = append(fnBody, st)
+			}
+		}
+		cases = append(cases, BashCase{Key: "E/repeated-expressions/" + k + "/func", Prog: SingleFile(append(append(c04Prelude(), fnDefs...), fn("ctx", nil, nil, fnBody...), callS("ctx"), callS("ctx"), final))})
+	}
+	// arguments of command calls: every stage's arguments in source order, over the whole chain
+	for _, plen := range []int{1, 2, 3} {
+		for _, capture := range []bool{false, true} {
+			stages := []AppStage{}
+			for k := 0; k < plen; k++ {
+				stages = append(stages, AppStage{Name: "true", NameLit: true, Args: []Expr{Sf(int64(10*k+1), "a"), sl("lit"), Sf(int64(10*k+2), "b")}})
+			}
+			var st []Stmt
+			if capture {
+				st = []Stmt{VarDecl{Names: []string{"o", "e", "code"}, Short: true, Values: []Expr{AppCall{stages}}}, pr(framed(vr("o")), vr("code"))}
+			} else {
+				st = []Stmt{ExprStmt{AppCall{stages}}}
+			}
+			hook := func(stages [][]string, fs map[string][]byte) (string, int) { return "", 0 }
+			cases = append(cases, BashCase{Key: fmt.Sprintf("E/command-arguments/len=%d/capture=%v/top", plen, capture), AppHook: hook, Prog: SingleFile(append(append(c04Prelude(), st...), final))})
+			cases = append(cases, BashCase{Key: fmt.Sprintf("E/command-arguments/len=%d/capture=%v/func", plen, capture), AppHook: hook, Prog: SingleFile(append(c04Prelude(), fn("ctx", nil, nil, st...), callS("ctx"), callS("ctx"), final))})
+		}
+	}
 	// control-flow positions
 	ctl := map[string][]Stmt{
 		"if-chain-all-conditions-first": {If{Branches: []IfBranch{{Bf(1, false), []Stmt{pr(sl("br1"))}}, {Bf(2, false), []Stmt{pr(sl("br2"))}}, {Bf(3, true), []Stmt{pr(sl("br3")), ExprStmt{T(31)}}}, {Bf(4, true), []Stmt{pr(sl("br4"))}}}, HasElse: true, Else: []Stmt{pr(sl("else"))}}},
